@@ -359,7 +359,7 @@ func checkC16(p *core.Program, r *core.Report) {
 		})
 	}
 	rsep, rbase := "", int64(0)
-	core.EachInstr(proc, func(in ssa.Instruction) {
+	eachInstrWithCallees(p, proc, "mdns", 2, func(in ssa.Instruction) {
 		c := core.Common(in)
 		if c == nil {
 			return
@@ -594,32 +594,73 @@ func checkC16(p *core.Program, r *core.Report) {
 		}
 		return false
 	}
-	var sinkCall *ssa.Call
+	// the text is whatever QRCodeText returns (Sprintf or concatenation); its constant pieces form the frame
+	var pieces []string
+	var collect func(v ssa.Value, d int)
+	collect = func(v ssa.Value, d int) {
+		if d > 10 || v == nil {
+			return
+		}
+		if c, ok := strConst(v); ok {
+			pieces = append(pieces, c)
+			return
+		}
+		switch x := v.(type) {
+		case *ssa.BinOp:
+			collect(x.X, d+1)
+			collect(x.Y, d+1)
+		case *ssa.Call:
+			if core.CalleeName(&x.Call) == "fmt.Sprintf" {
+				collect(x.Call.Args[0], d+1)
+			}
+			if core.CalleeName(&x.Call) == "strings.Join" {
+				collect(x.Call.Args[1], d+1)
+			}
+		case *ssa.Phi:
+			for _, e := range x.Edges {
+				collect(e, d+1)
+			}
+		}
+	}
+	var rets []*ssa.Return
 	core.EachInstr(qr, func(in ssa.Instruction) {
-		c, ok := in.(*ssa.Call)
-		if ok && core.CalleeName(&c.Call) == "fmt.Sprintf" {
-			if f, ok := strConst(c.Call.Args[0]); ok && strings.HasPrefix(f, "SHIP;") {
-				sinkCall = c
-				key := "QR frame literal"
-				if f == "SHIP;SKI:%s;ID:%s;%sENDSHIP;" {
-					r.OK(R4, key, p.Pos(in.Pos()), f)
-				} else {
-					r.Fail(R4, key, p.Pos(in.Pos()), "the QR text frame is "+f+" instead of SHIP;SKI:%s;ID:%s;%sENDSHIP;")
-				}
+		if ret, ok := in.(*ssa.Return); ok && ret.Block() != qr.Recover && len(ret.Results) == 1 {
+			rets = append(rets, ret)
+			collect(core.ResultOf(ret, 0), 0)
+		}
+	})
+	frame := strings.Join(pieces, "|")
+	okFrame := len(rets) > 0
+	for _, need := range []string{"SHIP;SKI:", ";ID:", "ENDSHIP;"} {
+		if !strings.Contains(frame, need) {
+			okFrame = false
+		}
+	}
+	if okFrame {
+		r.OK(R4, "QR frame literal", p.Pos(qr.Pos()), "SHIP;SKI:..;ID:..;..ENDSHIP; ("+frame+")")
+	} else {
+		r.Fail(R4, "QR frame literal", p.Pos(qr.Pos()), "the QR text is not framed as SHIP;SKI:<ski>;ID:<id>;<optionals>ENDSHIP; (constant pieces: "+frame+")")
+	}
+	for _, pc := range pieces {
+		if strings.ContainsAny(pc, "%") && !(strings.Contains(pc, "%s") && strings.Count(pc, "%") == strings.Count(pc, "%s")) {
+			r.Fail(R4, "QR format verbs", p.Pos(qr.Pos()), "the QR text is built with a format string other than plain %s verbs: "+pc)
+		}
+	}
+	// a value must never be part of a format string: Sprintf formats in the QR path are constants
+	eachInstrWithCallees(p, qr, "mdns", 2, func(in ssa.Instruction) {
+		if c := core.Common(in); c != nil && core.CalleeName(c) == "fmt.Sprintf" {
+			if _, isConst := strConst(c.Args[0]); !isConst {
+				r.Fail(R4, "QR format string constant in "+p.FnName(in.Parent()), p.Pos(in.Pos()), "a configuration value is used as (part of) a fmt format string: a '%' in it corrupts the QR text")
 			}
 		}
 	})
-	if sinkCall == nil {
-		r.Fail(R4, "QR frame literal", p.Pos(qr.Pos()), "no fmt.Sprintf with the SHIP;...ENDSHIP; frame found")
-		return
-	}
 	t := &core.Taint{
 		P:         p,
 		InScope:   func(fn *ssa.Function) bool { return p.PkgShort(fn) == "mdns" },
 		Sanitizer: isSemicolonRemover,
 		Sinks: func(in ssa.Instruction) []ssa.Value {
-			if in == ssa.Instruction(sinkCall) {
-				return sinkCall.Call.Args[1:]
+			if ret, ok := in.(*ssa.Return); ok && in.Parent() == qr {
+				return ret.Results
 			}
 			return nil
 		},
@@ -659,4 +700,27 @@ func checkC16(p *core.Program, r *core.Report) {
 		r.Fail(R4, "optional keys upper-cased", "", "optional QR keys are not upper-cased")
 	}
 	r.Floor(R4, 5)
+}
+
+// eachInstrWithCallees visits fn and, up to depth, the functions of package pkg it calls statically.
+func eachInstrWithCallees(p *core.Program, fn *ssa.Function, pkg string, depth int, f func(ssa.Instruction)) {
+	seen := map[*ssa.Function]bool{}
+	var visit func(g *ssa.Function, d int)
+	visit = func(g *ssa.Function, d int) {
+		if g == nil || seen[g] || g.Blocks == nil {
+			return
+		}
+		seen[g] = true
+		core.EachInstr(g, func(in ssa.Instruction) {
+			f(in)
+			if d > 0 {
+				if c := core.Common(in); c != nil {
+					if t := c.StaticCallee(); t != nil && p.PkgShort(t) == pkg {
+						visit(t, d-1)
+					}
+				}
+			}
+		})
+	}
+	visit(fn, depth)
 }
